@@ -51,6 +51,7 @@ structure JReq where
   txid : Nat := 0
   from_ : String := ""
   blockSize : Nat := 0
+  withMetadata : Bool := false
   elems : List JReq := []
   deriving Inhabited
 
@@ -60,7 +61,7 @@ partial def parseReq (j : Json) : Except String JReq := do
          src := optStrField j "src", dst := optStrField j "dst", asset := optStrField j "asset",
          amount := natOfStr (optStrField j "amount"), allow := optStrField j "allow", force := boolFieldD j "force",
          ik := optStrField j "ik", reference := optStrField j "reference", txid := natFieldD j "txid",
-         from_ := optStrField j "from", blockSize := natFieldD j "blockSize", elems := elems }
+         from_ := optStrField j "from", blockSize := natFieldD j "blockSize", withMetadata := boolFieldD j "withMetadata", elems := elems }
 
 structure JLedger where
   name : String
@@ -219,7 +220,7 @@ def Names.ledger (n : Names) (k : String) : Nat :=
 
 /-- canonical text of a request's input (what the idempotency hash covers) -/
 def inputText (r : JReq) : String :=
-  s!"{r.kind}|{r.src}|{r.dst}|{r.asset}|{r.amount}|{r.allow}|{r.force}|{r.reference}|{r.txid}"
+  s!"{r.kind}|{r.src}|{r.dst}|{r.asset}|{r.amount}|{r.allow}|{r.force}|{r.reference}|{r.txid}|{r.withMetadata}"
 
 /-! ## programs -/
 
@@ -482,6 +483,11 @@ def runModel (c : Case) (guarded : Bool := true) : ModelRun :=
     let (mt, rt) := if r.kind = "bulk" || r.kind = "import" || r.kind = "blocks" then (m.err, real.err)
       else (respText m.err m.tx m.log m.hit, respText real.err real.tx real.log real.hit)
     if mt = rt then none else some s!"response {r.task}: model {mt} real {rt}")
+  let postDiffs := ((c.post.zip c.postResps).zipIdx).filterMap (fun ((r, real), i) =>
+    if r.kind = "blocks" || r.kind = "import" then none else
+    let m := respOf w (sidOfPost i)
+    if respText m.err m.tx m.log m.hit = respText real.err real.tx real.log real.hit then none
+    else some s!"post {r.task}: model {respText m.err m.tx m.log m.hit} real {respText real.err real.tx real.log real.hit}")
   let mCommits := (w.commits.drop nCommitsBefore).filterMap (fun s => if s ≥ 1 && s ≤ c.reqs.length then (c.reqs[s - 1]?).map (·.task) else none)
   let commitDiff := if mCommits = c.commits then [] else [s!"commit order: model {mCommits} real {c.commits}"]
   let stDiffs := (c.ledgers.zipIdx.map (fun (l, i) =>
@@ -489,7 +495,7 @@ def runModel (c : Case) (guarded : Bool := true) : ModelRun :=
     | some st => stateDiff cx.names w (i + 1) (l.hashLogs = "SYNC") st
     | none => [s!"no state for ledger {l.name}"])).flatten
   let unfinished := (c.reqs.filterMap (fun r => if (w.resp (taskSid c r.task)).isNone then some s!"{r.task} unfinished in the model" else none))
-  let all := sdiff ++ (match rp.diverged with | some d => [d] | none => respDiffs ++ commitDiff ++ unfinished ++ stDiffs)
+  let all := sdiff ++ (match rp.diverged with | some d => [d] | none => respDiffs ++ postDiffs ++ commitDiff ++ unfinished ++ stDiffs)
   { diverged := all.head?, waits := (c.events.filter (·.res = "blocked")).length,
     model := Json.mkObj [("steps", rp.steps), ("diffs", jStrs (all.take 6))] }
 
@@ -625,7 +631,8 @@ def propC16 (c : Case) : PropRes :=
 def propC13 (c : Case) : PropRes :=
   let keys := (c.reqs.map (·.ik)).filter (· ≠ "") |>.eraseDups
   firstFail (keys.map (fun k =>
-    let rq := (c.reqs.zip c.resps).filter (fun (r, _) => r.ik = k)
+    -- concurrent requests and the sequential replays after them
+    let rq := ((c.reqs.zip c.resps) ++ (c.post.zip c.postResps)).filter (fun (r, _) => r.ik = k)
     let l := ledgerOf c ((rq.head?.map (·.1)).getD {})
     let st := (c.state.lookup l).getD {}
     let logs := st.logs.filter (·.ik = k)
@@ -773,9 +780,12 @@ def handle (inp out : Json) : Except String Verdict := do
          nontrivial := waits > 0 || ((c.workload = "ids" || c.workload = "blocks") && c.commits.eraseDups.length ≥ 2),
          tags := tags.eraseDups,
          note := if !p.ok then p.note else (m.diverged.getD ""),
-         sig := if !p.ok then p.sig else if agree then "" else "sched:model-real-divergence" }
+         sig := if !p.ok then p.sig else if agree then ""
+           else if ((m.diverged.getD "").splitOn "upsertAccounts").length > 1 && ((m.diverged.getD "").splitOn "23505").length > 1
+             then "sched:upsertAccounts-concurrent-first-use-of-an-account:23505-not-retried"
+           else "sched:model-real-divergence" }
 
 def handlers : List (String × Handler) :=
-  ["overdraft", "chain", "ids", "ik", "reference", "revert2", "import", "blocks"].map (fun w => ("sched." ++ w, handle))
+  ["overdraft", "chain", "schedchain", "ids", "ik", "reference", "revert2", "import", "blocks"].map (fun w => ("sched." ++ w, handle))
 
 end Ledger.Driver.Sched
